@@ -1549,13 +1549,16 @@ def c17(run: Run):
         return None if res.split(" ")[0] == "err" or res.split(" ")[-1].startswith("err") else \
             "chunk producing %d bytes beyond its declared size accepted: %s" % (meta.get("over"), res[:80])
     for pre, over in ((0, 2), (4096, 5), (0, 1)) if run.tier == "quick" else ((0, 2), (4096, 5), (0, 1), (65536, 3), (1, 7), (65535, 2)):
-        lits = 65536 - pre - 8 + over
+        target = 65536 * ((pre + 64) // 65536 + 1)      # the declared end (since the dictionary reset) lands here
+        lits = target - pre - 8 + over
         m = core.script([dict(kind="lzma2", chunks=("V1:%d.%d|" % (pre, rng.below(99)) if pre else "") +
                               "C%d:3.0.2:X%d.%d.200,M7.8" % (3 if not pre else 2, lits, rng.below(99)))])[0]
         pay = bytearray(m["payload"])
         o = (3 + pre) if pre else 0                    # offset of the compressed chunk's header
         true = lits + 8
-        assert pay[o] & 0xE0 in (0xE0, 0xC0) and ((pay[o] & 0x1F) << 16 | pay[o + 1] << 8 | pay[o + 2]) + 1 == true, "script layout"
+        if not (o + 2 < len(pay) and pay[o] & 0xE0 in (0xE0, 0xC0) and ((pay[o] & 0x1F) << 16 | pay[o + 1] << 8 | pay[o + 2]) + 1 == true):
+            run.notes.append("c17:overshoot-at-64k: unexpected layout of the scripted chunk sequence (pre=%d), variant skipped" % pre)
+            continue
         for decl in (true - over, true - over + 1, true - over - 1):
             if decl == true:
                 continue
